@@ -98,6 +98,7 @@ func checkC02(c *Ctx, r *Report) {
 	resolveEnvRule(c, r, "R02d")
 
 	computedNameRule(c, r)
+	dynIdentityRule(c, r)
 	r.Rule("R02e", "lookup order: resolveRef looks first in cfgRoot(owning config), then in env[len(env)-1] shrinking from the end; resolveEnv walks resolvers from len-1 downwards; resolvers are asked only after the tree lookup returned nothing and no critical error", 5)
 	lookupOrder(c, r)
 }
@@ -271,4 +272,31 @@ func isLenMinus1(v ssa.Value, of ssa.Value) bool {
 		return false
 	}
 	return call.Call.Args[0] == of || SameValue(call.Call.Args[0], of)
+}
+
+// dynIdentityRule (R02g): the per-call value cache is keyed by the id of the dynamic value object.
+// Two objects with one id answer for each other within a call — a copy made by Merge lives under
+// another root and must not find the original's result. Objects of type cfgDynamic are therefore
+// created only where the id is drawn (newDyn): no other allocation, no struct copy.
+func dynIdentityRule(c *Ctx, r *Report) {
+	r.Rule("R02g", "cfgDynamic objects are allocated only in the constructor that draws a fresh cache id (newDyn); copies are made through it, never by copying the struct", 1)
+	dynT := c.Named("", "cfgDynamic")
+	ctor := c.Func("", "newDyn")
+	n := 0
+	for _, fn := range c.SrcFuncs() {
+		if fn.Pkg != c.SSA[""] {
+			continue
+		}
+		Instrs(fn, false, func(in ssa.Instruction) {
+			al, ok := in.(*ssa.Alloc)
+			if !ok || !types.Identical(derefType(al.Type()), dynT) {
+				return
+			}
+			n++
+			r.Check(fn == ctor, "R02g", c.FnName(fn), "cfgDynamic allocated", c.Pos(al.Pos()), "in newDyn, which draws the id", "a cfgDynamic object is created outside newDyn (a struct copy keeps the id of the original): the copy and the original share one slot of the per-call cache, and whichever is evaluated first — under its own root — answers for the other")
+		})
+	}
+	if n == 0 {
+		r.add("R02g", "ucfg.newDyn", "cfgDynamic allocated", c.Pos(ctor.Pos()), Undecided, true, "no allocation of cfgDynamic found")
+	}
 }
